@@ -64,6 +64,27 @@ NOTES = {
  "C18r3-fahrenheit-truncation": ("`int(x + 0.5)` instead of round() for Fahrenheit", "results below 0 F", ""),
  "C19r3-send-except-narrowed": ("send() handles only ConnectionError / AssertionError", "a write failing with TimeoutError / OSError / RuntimeError", "MISSED by the first C19: with a transport that closes on a failed write (as asyncio's do) the read path still reports the loss, so nothing observable changed; write-only failures (write() raises, read side healthy) and non-ConnectionError error types were added"),
  "C20r3-checksum-over-used-bytes": ("checksum verified over the used payload bytes only", "corruption in the padding of a frame with fewer than 8 data bytes", "MISSED by the first C20 (only 8-byte frames): a 3-byte frame and corrupted padding / reserved-byte variants added (C06's corruption sweep caught it)"),
+ # round 4
+ "C01r4-offset-before-resolution": ("`(raw + offset) * resolution` in decode_number", "a field with an offset and a resolution other than 1 (PGN 127513 peukertExponent only)", ""),
+ "C02r4-signed-min-off-by-one": ("signed lower bound `-max - 1` with max one too small: the most negative raw is refused on encode", "a signed field at its most negative raw (130818, 129029 altitude)", ""),
+ "C03r4-short-fast-path-skips-counter": ("early return for payloads that fit into the first frame skips the counter increment", "a fast-packet message of <= 6 bytes followed by another fast-packet message", ""),
+ "C04r4-zero-length-padding": ("payload cut with `[-payload_length:]`", "announced length 0 in a padded frame: the padding comes back as payload", "MISSED by the first C04 (shortest message 5 bytes): counter cycles with 0- and 1-byte messages in padded frames added"),
+ "C05r4-pf-not-masked": ("PF / DP no longer masked after shifting", "identifiers with the data-page / reserved bits set", ""),
+ "C06r4-dest-zero-falsy": ("`ps = dest or 0xFF` (same slip as C05 round 3, found independently)", "PDU1 PGN addressed to destination 0", ""),
+ "C07r4-completion-only-on-continuation": ("completion tested only when a continuation frame arrives", "fast-packet messages of <= 6 bytes in frame-wise formats", ""),
+ "C08r4-match-zero-dropped": ("`== 0` match conditions dropped from the generated dispatcher (template truthiness)", "definitions selected by a match value of 0 (7 arms)", ""),
+ "C09r4-offset-in-ticks": ("`value / resolution - offset` in encode_number", "field with offset and resolution != 1: out-of-range 0.002-0.508 accepted and corrupted, every valid value refused", "MISSED by the first C09 (a definition whose decoded base no longer encodes was skipped altogether, and no value below the offset other than one step was tried): such definitions are kept, and offset-confusion values were added for every field with an offset"),
+ "C10r4-stale-identity-when-claims-filtered": ("with the claim PGN filtered a re-claim keeps the old identity", "network map + claim PGN filtered + the same source claiming again with another NAME", "MISSED by the first C10 (each source claimed one NAME only): a second NAME per source added (C11 caught it)"),
+ "C11r4-source-map-class-attribute": ("source -> identity map declared as a class attribute: shared by all decoder instances", "two decoders in one process", ""),
+ "C12r4-decode-except-narrowed": ("text clients catch only ValueError around the decode call", "a well-formed line the decoder rejects with another exception type (bare Exception for 126208, IndexError for a 1-byte fast PGN)", "MISSED by the first C12 (every undecodable line in the text alphabets raised ValueError): one such line per text client added"),
+ "C13r4-readline-except-widened": ("`except Exception` around readline(): connection errors are swallowed as 'unreadable line'", "a reset while the text client is reading", ""),
+ "C14r4-closed-set-last": ("state set to CLOSED only after everything was released (several awaits later)", "observing the client between close() being entered and returning", ""),
+ "C15r4-midnight-raw-falsy": ("`if field.raw_value:` for a TIME field in the generated encoder", "time 00:00:00 (raw 0.0) after a JSON round trip", ""),
+ "C16r4-seq-mask-2bits": ("sequence counter masked to 2 bits in the reassembly key", "stale partial message and a new one whose counters differ by 4", ""),
+ "C17r4-key-ascii-ignore": ("primary key encoded as ASCII with errors ignored before hashing", "key strings that differ only in non-ASCII characters (station ids of 130320/130322/130323/130324)", "MISSED by the first C17 (string alphabets were ASCII or undecodable bytes): UTF-8 and UTF-16 non-ASCII strings added to the STRING_LAU alphabet (used by every payload-based check)"),
+ "C18r4-bar-rounded-3-decimals": ("bar conversion rounded to 3 decimals", "pressure fields with 0.1 Pa resolution (130314/130315)", ""),
+ "C19r4-finally-releases-foreign-lock": ("send lock released in `finally` whenever it is locked", "sender suspended in drain(), then an unencodable send, then a third sender", "MISSED by the first C19 (bad messages were only sent alone): an unencodable message before / between / after two good ones under every back-pressure pattern added"),
+ "C20r4-return-on-decode-error": ("Waveshare client returns before cutting the packet when the decoder raises", "a well-framed packet the decoder rejects: it is retried forever and the buffer grows", ""),
 }
 rows = []
 for d in sorted(glob.glob(os.path.join(V, "seeded", "*"))):
